@@ -24,27 +24,36 @@ RULE = ("code tries of random shape (1-4 byte codes mixed) and byte strings made
         "surrogate-pair targets, names, wrong operand types, mismatched lengths), cidchar/cidrange, parsed by CMapParser; "
         "whole documents with Type0 fonts (Identity-H/V, predefined CMaps, ToUnicode or collection or embedded TrueType "
         "cmap format 4 with delta and range-offset segments, W/DW/W2/DW2 of every grammar form) observed through "
-        "LTChar text/adv/bbox. Non-trivial: multi-byte codes / a range section / a W entry.")
+        "LTChar text/adv/bbox; font programs with several cmap subtables (formats 0, 2, 4, an unknown one; Unicode and "
+        "other platform records; overlapping segments; duplicate directory tags), whole and truncated at a random byte, "
+        "TrueTypeFont.create_unicode_map against its model. Non-trivial: multi-byte codes / a range section / a W entry.")
 TRUSTED = [
     "modelled by hand: CMap.decode, IdentityCMap(.Byte).decode, CMapParser's end-section handlers on operand lists, "
     "FileUnicodeMap.add_cid2unichr, get_widths/get_widths2, PDFCIDFont width/disp lookup (Model/CMaps.v); "
+    "TrueTypeFont.__init__ / create_unicode_map over the bytes of the font program (Model/TrueType.v); "
     "name2unicode and UTF-16 decoding are the models of C06 / C17",
     "not modelled in Coq: the pickled predefined CMap/to-unicode data (compared with Python's cp932, euc_jp, cp949, euc_kr, "
-    "gbk, gb2312, gb18030, big5, big5hkscs, utf-16/utf-8 codecs) and TrueTypeFont.create_unicode_map (compared with the "
-    "harness's own format-4 table writer); the tokenizer/stack machine under CMapParser is C01's",
+    "gbk, gb2312, gb18030, big5, big5hkscs, utf-16/utf-8 codecs); the tokenizer/stack machine under CMapParser is C01's",
 ]
 ASSUMPTIONS = ["W/W2 codes are integers; bfrange ranges have at most a few hundred codes (the model is fuelled by the range size)"]
 MANIFEST_ENTRY = {
     "category": "proof",
     "technique": "Coq proofs (segmentation by induction on the code list over an arbitrary trie; Identity decode; UTF-16BE "
                  "targets via the C17 round-trip theorem; bfrange increment = last-byte increment via big-endian pack/unpack "
-                 "round trip; W arrays = last covering entry by induction on entries) + differential runs on generated tries, "
+                 "round trip; W arrays = last covering entry by induction on entries; embedded TrueType cmap: format-4 segment "
+                 "loop = last covering segment by induction on segments and ranges, big-endian array read-back, inversion "
+                 "into cid2unichr sound and complete by an accumulator invariant) + differential runs on generated tries, "
                  "CMap streams and documents; predefined CMap data checked against platform codecs",
     "text": "Theorems: for any code trie, a concatenation of codes (root-to-leaf paths, any mix of lengths) decodes to exactly "
             "their CIDs in order, an unknown byte is skipped; Identity-H/V yields the big-endian pairs and ignores a dangling "
             "byte; a UTF-16BE target of any length is stored as its code points and the newest definition of a code wins; "
             "bfrange increment form equals incrementing the target's last byte whenever it does not overflow; for W arrays of "
-            "the ISO grammar the advance is the last covering entry else DW; vertical fonts take DW2/W2. Predefined CMaps: "
+            "the ISO grammar the advance is the last covering entry else DW; vertical fonts take DW2/W2. Embedded TrueType "
+            "cmap: for any bytes, a completed format-4 segment loop gives every character the glyph of the last segment "
+            "covering it ((c + idDelta) mod 65536, or the glyph array entry at idRangeOffset plus idDelta unless it is 0); "
+            "16-bit arrays are read back as written at any offset; the text reported for a glyph is a character the table "
+            "maps to it, every mapped glyph has a text, a glyph with one character gets exactly it (the byte layout of the "
+            "directory and of formats 0/2 is tied by differential runs only). Predefined CMaps: "
             "every kana/hangul/unified ideograph the platform codec can encode and the CMap maps must come back as the same "
             "character (known data deviations listed individually in known_findings.json).",
     "note": "Trusted: Coq kernel, hand model tied by differential runs, Python codecs as the independent reference.",
@@ -530,6 +539,99 @@ def gen_ttf(r):
     return hdr + cmap, exp
 
 
+def gen_ttf_any(r):
+    """a font program for the model family: several cmap subtables of formats 0, 2, 4 and unknown ones under Unicode
+    and non-Unicode platform records, overlapping characters, duplicate directory tags, then possibly truncated"""
+    subs = []
+    for _ in range(r.randint(1, 3)):
+        kind = r.choice([4, 4, 4, 0, 2, 6])
+        if kind == 4:
+            segs, start = [], r.choice([0x20, 0x90, 0x3000])
+            for _ in range(r.randint(1, 4)):
+                start += r.randint(0, 0x40)
+                n = r.randint(1, 6)
+                if r.random() < 0.5:
+                    segs.append((start, start + n - 1, ((r.choice([-start + 3, -20, 0, 300, 65530 - start, -32768]) + 32768) % 65536 - 32768), None))
+                else:
+                    segs.append((start, start + n - 1, r.choice([0, 0, 3, -1]), [r.choice([0, r.randint(1, 400), 65535]) for _ in range(n)]))
+                start += n - r.choice([0, 0, 1])            # segments may overlap by one character
+            body = fmt4(segs)
+        elif kind == 0:
+            body = struct.pack(">HHH", 0, 262, 0) + bytes(r.choice([0, 0, r.randint(1, 255)]) for _ in range(256))
+        elif kind == 2:
+            nh = r.randint(1, 3)
+            keys = [0] * 256
+            for k in range(1, nh):
+                keys[r.choice([0x81, 0x82, 0x9f, 0xe0])] = 8 * k
+            hdrs, garr = [], []
+            for k in range(nh):
+                cnt = r.choice([0, 1, 3, 5])
+                hdrs.append((r.choice([0x20, 0x40, 0xa0]), cnt, r.choice([0, 5, -3]), len(garr)))
+                garr += [r.choice([0, r.randint(1, 300)]) for _ in range(cnt)]
+            hb = b""
+            for k, (fc, cnt, dl, goff) in enumerate(hdrs):
+                # idRangeOffset counts from its own position to the glyph
+                off = (nh - k) * 8 - 6 + 2 * goff
+                hb += struct.pack(">HHhH", fc, cnt, dl, off)
+            body = struct.pack(">HHH", 2, 0, 0) + struct.pack(">256H", *keys) + hb + b"".join(struct.pack(">H", g) for g in garr)
+        else:
+            body = struct.pack(">HHHHH", 6, 10 + 2 * 3, 0, 0x41, 3) + struct.pack(">HHH", 5, 6, 7)
+        pid, eid = r.choice([(3, 1), (3, 1), (0, 3), (3, 10), (1, 0), (3, 0)])
+        subs.append((pid, eid, body))
+    n = len(subs)
+    off = 4 + 8 * n
+    recs, blob = b"", b""
+    for pid, eid, body in subs:
+        recs += struct.pack(">HHL", pid, eid, off + len(blob))
+        blob += body
+    cmap = struct.pack(">HH", 0, n) + recs + blob
+    tabs = [(b"cmap", cmap)]
+    if r.random() < 0.3:
+        tabs.insert(0, (b"head", b"\0" * 8))
+    if r.random() < 0.1:
+        tabs.insert(0, (b"cmap", b"\0\0\0\0"))          # the later entry of a tag is the one kept
+    if r.random() < 0.05:
+        tabs = [t for t in tabs if t[0] != b"cmap"]
+    pos = 12 + 16 * len(tabs)
+    hdr, data = b"\0\1\0\0" + struct.pack(">HHHH", len(tabs), 0, 0, 0), b""
+    for tag, t in tabs:
+        hdr += struct.pack(">4sLLL", tag, 0, pos + len(data), len(t))
+        data += t
+    font = hdr + data
+    if r.random() < 0.25:
+        font = font[:r.randint(0, len(font))]
+    return font
+
+
+def ttf_model_cases(ctx, n):
+    """the model of TrueTypeFont.__init__ / create_unicode_map against the implementation on font programs of every
+    supported subtable format, whole or truncated"""
+    from pdfminer.pdffont import TrueTypeFont
+    cases, metas = [], []
+    for i in range(n):
+        r = ctx.sub("ttfm", i)
+        font = gen_ttf_any(r)
+        try:
+            m = TrueTypeFont("x", io.BytesIO(font)).create_unicode_map().cid2unichr
+            err = None
+        except TrueTypeFont.CMapNotFound:
+            m, err = {}, -1
+        except BaseException as e:  # noqa
+            ctx.violation("ttf-model", {"font": font.hex()}, "a map or CMapNotFound", type(e).__name__, "create_unicode_map raised")
+            continue
+        gids = sorted(m)[:60] + [r.randint(0, 500) for _ in range(6)] + [0, 65535]
+        ctx.case("ttf-model", font, nontrivial=err is None and len(m) > 1, sample={"font": font.hex()[:120], "entries": len(m), "err": err})
+        if err:
+            want = CZ(err)
+        else:
+            want = CLs([CLs([]) if g not in m else CLs([CLs([CZ(ord(ch)) for ch in m[g]])]) for g in gids])
+        cases.append(("(%s, %s)" % (gzs(font), gzs(gids)), want))
+        metas.append(font)
+    bad = common.coq_cases("c07t", ["Model.CMaps", "Model.TrueType", "Model.CMapsRun"], "run_ttf", cases, shard=60)
+    for i, shown in sorted(bad.items()):
+        ctx.disagree("ttf-model", {"font": metas[i].hex()}, shown, cases[i][1])
+
+
 def docs_cases(ctx, n):
     from pdfminer.pdfparser import PDFParser
     from pdfminer.pdfdocument import PDFDocument
@@ -745,6 +847,7 @@ def correspondence(ctx):
     predefined_cases(ctx, ctx.n(12, 200), full=ctx.tier != "quick")
     tounicode_cases(ctx, ctx.n(400, 8000))
     ttf_oracle(ctx, ctx.n(150, 3000))
+    ttf_model_cases(ctx, ctx.n(240, 4000))
     docs_cases(ctx, ctx.n(120, 2500))
 
 
